@@ -111,10 +111,34 @@ def gen_data(seed, shape, cplx):
     return a
 
 
-def mk_image(arr, sx, sy, mi, wl, name="holo", noise=0.125):
+def mk_image(arr, sx, sy, mi, wl, name="holo", noise=0.125, origin=(0, 0)):
+    """image whose first pixel sits at pixel (i0, j0) = origin of a larger detector frame: coordinates
+    (i0 + i) * sx, (j0 + j) * sy.  origin != (0, 0): a square even-sized image is cut out of a larger frame
+    with the public subimage(); other shapes get the same coordinates through assign_coords."""
+    import numpy as np
     from holopy.core.metadata import data_grid
-    return data_grid(arr, spacing=(sx, sy), medium_index=mi, illum_wavelen=wl,
-                     illum_polarization=(1, 0), noise_sd=noise, name=name)
+    i0, j0 = int(origin[0]), int(origin[1])
+    kw = dict(spacing=(sx, sy), medium_index=mi, illum_wavelen=wl, illum_polarization=(1, 0), noise_sd=noise, name=name)
+    arr = np.asarray(arr)
+    if (i0, j0) == (0, 0):
+        return data_grid(arr, **kw)
+    r, c = arr.shape
+    if r == c and r % 2 == 0:
+        from holopy.core.process import subimage
+        full = np.zeros((i0 + r + 1, j0 + c + 2), dtype=arr.dtype)
+        full[i0:i0 + r, j0:j0 + c] = arr
+        im = subimage(data_grid(full, **kw), [i0 + r // 2, j0 + c // 2], r)
+        assert im.sizes['x'] == r and im.sizes['y'] == c and np.array_equal(im.values[0], arr)
+        return im
+    im = data_grid(arr, **kw)
+    return im.assign_coords(x=(np.arange(r) + i0) * sx, y=(np.arange(c) + j0) * sy)
+
+
+def gen_origin(rng):
+    """pixel offset of the image inside its detector frame; half of the images start at the origin"""
+    if rng.random() < 0.5:
+        return [0, 0]
+    return [rng.choice([0, 1, 2, 3, 7, 8, 40]), rng.choice([0, 1, 2, 5, 7, 16, 33])]
 
 
 def gen_shape(rng, lo=2, hi=9):
@@ -347,7 +371,8 @@ def stage_transfunc(ctx):
         d = gen_dist(rng)
         cfsp = rng.choice([0, 0, 1, 2, 3])
         gf = rng.choice([None, None, 0.25, lam, -0.125])
-        im = mk_image(np.zeros((r, c)), sx, sy, mi, wl)
+        org = gen_origin(rng)
+        im = mk_image(np.zeros((r, c)), sx, sy, mi, wl, origin=org)
         G = trans_func(im, d, lam, cfsp=cfsp, gradient_filter=(gf if gf is not None else 0))
         Gv = np.asarray(G.isel(z=0).transpose('m', 'n').values)
         ms, ns = [float(v) for v in G.m.values], [float(v) for v in G.n.values]
@@ -370,7 +395,7 @@ def stage_transfunc(ctx):
             goals.append("Rabs (fst (%s) - %s) <= 1e-9 /\\ Rabs (snd (%s) - %s) <= 1e-9" % (
                 call, rlit(g.real), call, rlit(g.imag)))
             tacs.append("c17_neg" if root < 0 else "c17_pos")
-            metas.append(dict(case=k, shape=[r, c], spacing=[sx, sy], med_wavelen=lam, d=d, cfsp=cfsp,
+            metas.append(dict(case=k, shape=[r, c], spacing=[sx, sy], origin=org, med_wavelen=lam, d=d, cfsp=cfsp,
                               gradient_filter=gf, m=ms[i], n=ns[j], impl=[g.real, g.imag], evanescent=bool(root < 0)))
         ctx.count("trans:cfsp=%d" % cfsp)
         ctx.count("trans:gf" if gf is not None else "trans:plain")
@@ -441,7 +466,9 @@ def stage_propagate(ctx):
                 mi_im = None
             else:
                 wl_im = None
-        im = mk_image(a, sx, sy, mi_im, wl_im)
+        org = gen_origin(rng)
+        im = mk_image(a, sx, sy, mi_im, wl_im, origin=org)
+        ctx.count("prop:origin:%s" % ("zero" if org == [0, 0] else "offset"))
         cfsp = rng.choice([0, 0, 0, 1, 2, 3])
         gf = rng.choice([None, None, None, 0.25, -0.5])
         islist = rng.random() < 0.5
@@ -455,7 +482,7 @@ def stage_propagate(ctx):
         else:
             ds = [gen_dist(rng) if rng.random() < 0.9 else 0.0]
             darg = ds[0]
-        meta = dict(case=k, shape=[r, c], spacing=[sx, sy], data_seed=seed, complex=cplx, d=darg, cfsp=cfsp,
+        meta = dict(case=k, shape=[r, c], spacing=[sx, sy], origin=org, data_seed=seed, complex=cplx, d=darg, cfsp=cfsp,
                     gradient_filter=gf, image_meta=[mi_im, wl_im], arg_meta=[mi_arg, wl_arg], mode=mode)
         try:
             res = propagate(im, darg, medium_index=mi_arg, illum_wavelen=wl_arg, cfsp=cfsp,
@@ -600,7 +627,7 @@ def gen_prop_case(rng, maxn):
     return dict(shape=[r, c], spacing=[sx, sy], medium_index=mi, illum_wavelen=wl, complex=rng.random() < 0.5,
                 data_seed=rng.randrange(1 << 30), cfsp=rng.choice([0, 0, 0, 1, 2, 4]),
                 gradient_filter=rng.choice([None, None, None, 0.25, lam]),
-                d1=gen_dist(rng), d2=gen_dist(rng))
+                d1=gen_dist(rng), d2=gen_dist(rng), origin=gen_origin(rng))
 
 
 def has_evanescent(case):
@@ -617,8 +644,9 @@ def check_prop_case(ctx, case):
     sx, sy = case["spacing"]
     a = gen_data(case["data_seed"], (r, c), case["complex"])
     a2 = gen_data(case["data_seed"] + 7, (r, c), case["complex"])
-    im = mk_image(a, sx, sy, case["medium_index"], case["illum_wavelen"], name="holo")
-    im2 = mk_image(a2, sx, sy, case["medium_index"], case["illum_wavelen"], name="holo")
+    org = case.get("origin", [0, 0])
+    im = mk_image(a, sx, sy, case["medium_index"], case["illum_wavelen"], name="holo", origin=org)
+    im2 = mk_image(a2, sx, sy, case["medium_index"], case["illum_wavelen"], name="holo", origin=org)
     kw = dict(cfsp=case["cfsp"], gradient_filter=(case["gradient_filter"] if case["gradient_filter"] is not None else False))
     plain = case["gradient_filter"] is None
     d1, d2 = case["d1"], case["d2"]
@@ -632,7 +660,8 @@ def check_prop_case(ctx, case):
         return res, xy(res)
 
     def bad(clause, what, **extra):
-        ctx.violation("%s:%s:%s" % (clause, opt, par), what, dict(kind="explore", clause=clause, **case, **extra))
+        ctx.violation("%s:%s:%s%s" % (clause, opt, par, "" if list(org) == [0, 0] else ":offset-origin"), what,
+                      dict(kind="explore", clause=clause, **case, **extra))
 
     ctx.explored += 1
     # zero
@@ -722,6 +751,7 @@ def check_prop_case(ctx, case):
             or set(rl.attrs) != set(im.attrs):
         bad("metadata", "propagate(x, list) changed coordinates / name / attrs", ds=ds)
     ctx.count("explore:%s:%s" % (opt, par))
+    ctx.count("explore:origin:%s" % ("zero" if list(org) == [0, 0] else "offset"))
     ctx.count("explore:sampling:%s" % ("fine(evanescent)" if has_evanescent(case) else "coarse"))
     ctx.nontriv(("explore", r, c, opt, has_evanescent(case), d1 > 0))
 
@@ -752,7 +782,8 @@ def run(ctx):
     ctx.rule = ("image shapes 2..64 x 2..64: every shape 2..8 x 2..8 (thorough 2..12) with random real / complex data "
                 "compared in Q at 1e-9, squares and n x (n+1) up to 16 (thorough 32) plus random / extreme shapes up to "
                 "64 x 64 with integer-labelled spectra compared exactly (odd / even / non-square); spacings 1/16..1 on both "
-                "sides of half the medium wavelength incl. exactly lam/2 (1 +- 2^-20); distances of both signs from "
+                "sides of half the medium wavelength incl. exactly lam/2 (1 +- 2^-20), anisotropic; half of the images "
+                "with a non-zero coordinate origin (subimage crops of a larger frame / shifted detector grids); distances of both signs from "
                 "1/64 to 150; scalar and list distances with zeros at every position; cfsp 0..4; gradient filter; "
                 "metadata stored / overridden / missing; non-trivial = distinct (shape) for the transforms, distinct "
                 "(shape parity, options, regime, sign) for propagation")
@@ -800,6 +831,7 @@ def replay(ctx, data):
     if kind == "explore":
         case = {k: d[k] for k in ("shape", "spacing", "medium_index", "illum_wavelen", "complex", "data_seed", "cfsp",
                                   "gradient_filter", "d1", "d2")}
+        case["origin"] = d.get("origin", [0, 0])
         print("replay: evaluating every clause of the property on the stored configuration")
         guarded(ctx, "replay-explore", check_prop_case, ctx, case)
     elif kind == "roundtrip":
